@@ -24,10 +24,11 @@ Definition syms_with_sep (l : list (option ascii)) (sepc : ascii) : list string 
 Definition escape_path_section (section : string) (sepc : ascii) : string :=
   ensure_escaped section (syms_with_sep g_section_escape_syms sepc).
 
-(* SearchTerms.__str__ (after the two "fix:" commits): a regular expression is
+(* SearchTerms.__str__ (after the three "fix:" commits): a regular expression is
    written between the first candidate delimiter that does not occur in it
    (the old "/"-with-"\/" rendering remains the fallback); any other term gets
-   its unescaped spaces and search operator symbols back-slashed. *)
+   its unescaped spaces, search operator symbols and -- since the repair of
+   F21's printer half -- quote characters back-slashed. *)
 Definition regex_delims : list ascii :=
   ["/"; "|"; "#"; "@"; ","; ";"; ":"; "_"; "-"; "+"]%char.
 
@@ -38,7 +39,7 @@ Fixpoint pick_delim (l : list ascii) (term : string) : option ascii :=
   end.
 
 Definition term_escape_syms : list string :=
-  [" "; "="; "^"; "$"; "%"; "!"; ">"; "<"; "~"].
+  [" "; "="; "^"; "$"; "%"; "!"; ">"; "<"; "~"; "'"; """"].
 
 Definition search_str (inv : bool) (m : smethod) (attr term : string) : string :=
   let safe :=
@@ -211,21 +212,75 @@ Definition y_set_separator (v : option sep) (p : ypath) : outcome unit * ypath :
     | OutOfFuel => (OutOfFuel, p1)
     end.
 
-(* the comparison string of __eq__: a copy, separator := FSLASH, str() *)
-Definition y_cmp_string (orig : string) : outcome string :=
-  let '(r, p1) := y_set_separator (Some Slash) (y_new orig) in
-  match r with
-  | Ok _ => fst (y_str p1)
-  | Raise e => Raise e
-  | OutOfFuel => OutOfFuel
+(* ---- __eq__ (after the "fix:" commit that repaired finding F23): the ESCAPED
+   segments of two fresh copies are compared, each reduced by
+   _comparable_segments to plain values: SearchTerms to the tuple (type,
+   inverted, method, attribute, term), SearchKeywordTerms / CollectorTerms to
+   (type, str(terms)), anything else stays (type, attrs).  Python compares
+   the two lists of tuples element by element; tuples of different length, a
+   str and an int, a str and None are never equal. ---- *)
+Definition comparable_seg (sg : seg) : seg :=
+  match sg with
+  | (ty, AKeyword inv k p) => (ty, AStr (keyword_str inv k p))
+  | (ty, ACollector op e) => (ty, AStr (collector_str op e))
+  | _ => sg
+  end.
+
+Definition smethod_eqb (a b : smethod) : bool :=
+  match a, b with
+  | MContains, MContains | MEndsWith, MEndsWith | MEquals, MEquals | MStartsWith, MStartsWith
+  | MGt, MGt | MLt, MLt | MGe, MGe | MLe, MLe | MRegex, MRegex => true
+  | _, _ => false
+  end.
+
+Definition keyword_eqb (a b : keyword) : bool :=
+  match a, b with
+  | KDistinct, KDistinct | KHasChild, KHasChild | KName, KName | KMax, KMax | KMin, KMin
+  | KParent, KParent | KUnique, KUnique => true
+  | _, _ => false
+  end.
+
+Definition cop_eqb (a b : cop) : bool :=
+  match a, b with
+  | CNone, CNone | CAdd, CAdd | CSub, CSub | CAnd, CAnd => true
+  | _, _ => false
+  end.
+
+Definition attrs_eqb (a b : attrs) : bool :=
+  match a, b with
+  | AStr s, AStr t => String.eqb s t
+  | AInt x, AInt y => Z.eqb x y
+  | ANone, ANone => true
+  | ASearch i m a1 t1, ASearch j n a2 t2 =>
+      Bool.eqb i j && smethod_eqb m n && String.eqb a1 a2 && String.eqb t1 t2
+  | AKeyword i k p, AKeyword j l q => Bool.eqb i j && keyword_eqb k l && String.eqb p q
+  | ACollector o e, ACollector p f => cop_eqb o p && String.eqb e f
+  | _, _ => false
+  end.
+
+Definition opt_segtype_eqb (a b : option segtype) : bool :=
+  match a, b with
+  | Some t, Some u => segtype_eqb t u
+  | None, None => true
+  | _, _ => false
+  end.
+
+Definition seg_eqb (a b : seg) : bool :=
+  opt_segtype_eqb (fst a) (fst b) && attrs_eqb (snd a) (snd b).
+
+Fixpoint seglist_eqb (a b : list seg) : bool :=
+  match a, b with
+  | [], [] => true
+  | x :: r, y :: t => seg_eqb x y && seglist_eqb r t
+  | _, _ => false
   end.
 
 (* __eq__ against a YAMLPath or str whose text is [other]; neither operand is
-   modified (both are copied first) *)
+   modified (both are copied first: YAMLPath(self), YAMLPath(other)) *)
 Definition y_eq (p : ypath) (other : string) : outcome bool :=
-  do a <- y_cmp_string (y_orig p);
-  do b <- y_cmp_string other;
-  Ok (String.eqb a b).
+  do a <- fst (y_escaped (y_new (y_orig p)));
+  do b <- fst (y_escaped (y_new other));
+  Ok (seglist_eqb (map comparable_seg a) (map comparable_seg b)).
 
 (* append(segment) *)
 Definition y_append (segment : string) (p : ypath) : ypath :=
